@@ -32,6 +32,7 @@ def drive_and_validate(run, cases, shards):
 
 def check(tier):
     run = Run("C07", tier)
+    run.skip_key = ['fam', 'pos', 'via', 'chain', 'ty', 'term']
     cases = model(run)
     if tier == "quick":
         # every case of the small families, a seeded half of the exhaustive bit / named-bit / OID families
